@@ -26,12 +26,18 @@ pub fn check() -> Check {
         id: "C06",
         run_shard,
         prepare: Some(prepare),
-        replay: |sub, case| -> Verdict { replay_lockstep(sub, case, FLAGS) },
+        replay: |sub, case| -> Verdict {
+            if sub == super::shapes::SUB {
+                return super::shapes::replay(case, vmodel::sinkkinds::Diff::Display);
+            }
+            replay_lockstep(sub, case, FLAGS)
+        },
         floor_quick: 2_000,
         floor_thorough: 50_000,
         rule: "Random sessions as in C01 plus Cli::write (0-5 calls of write_str / writeln_str / uwrite! / write!, texts of printable characters, LF, CR LF, empty) and Cli::set_prompt from {empty, '$ ', '#', one with 3- and 4-byte characters, Cyrillic} at arbitrary positions, \
                handler-side prompt changes and output; all sink bytes are fed to an ECMA-48 terminal emulator in lock-step. After every API call that returns Ok the emulator's current row (trailing blanks trimmed) must equal prompt + line (hook) and its cursor column chars(prompt) + cursor. \
-               Non-trivial = a write, prompt change, recall, completion or rejected character executed with the cursor strictly inside a non-empty line; distinct by (line, cursor, op). Evaluations count every API call (input byte, application write, prompt change) that was followed by the oracle, plus one per session; a coverage-guided campaign (libFuzzer + ASan, 16 processes, same oracle inside the target) searches the same session space and what it keeps is re-run and classified here.",
+               Non-trivial = a write, prompt change, recall, completion or rejected character executed with the cursor strictly inside a non-empty line; distinct by (line, cursor, op). Evaluations count every API call (input byte, application write, prompt change) that was followed by the oracle, plus one per session; a coverage-guided campaign (libFuzzer + ASan, 16 processes, same oracle inside the target) searches the same session space and what it keeps is re-run and classified here. \
+               API shapes (sub `api-shapes`): the same session strategies on a zero-sized / 512-byte / `&mut` sink, with `[u8; N]` and `&mut [u8]` buffers, builder calls in other orders and `Cli::new`; the terminal emulator fed with each shape's bytes must end up showing what it shows for the shape the lock-step sessions use.",
         assumptions: &[
             "characters have display width 1 and the line does not wrap (as in the property's quantifier)",
             "emulator repertoire: printable, CR, LF, BS, CSI C/D/P/@/K/G with numeric parameters; any other sequence ends the case as inconclusive (exit 2), never as a violation",
@@ -60,4 +66,6 @@ fn run_shard(ctx: &ShardCtx) {
     run_lockstep_shard(ctx, "screen", "C06", ctx.tier.pick(1_500_000, 15_000_000), opts(ctx.tier), SETS, FLAGS);
     // what the coverage-guided campaign (prepare) kept, re-run and classified in the plain harness build
     fuzzdrv::replay_lock_corpus(ctx, "C06", "screen", FLAGS);
+    // other shapes of the API (sink types, `[u8; N]` / `&mut [u8]` buffers, builder call orders, Cli::new): a terminal shows the same
+    super::shapes::stage(ctx, ctx.tier.pick(100_000, 1_500_000), opts(ctx.tier), SETS, vmodel::sinkkinds::Diff::Display);
 }
